@@ -104,6 +104,13 @@ func c17One(c *core.Ctx, cs srcCase) {
 		blame := firstKindDiff(ref.Root, r2.Root)
 		if mixed != "" {
 			blame = mixed
+			// the recorded family is about the statements of the mode switch itself (empty statements and inline HTML
+			// appearing, vanishing or losing the newline a close tag swallows); anything else that differs is not part of it
+			skip := map[string]bool{"StmtNop": true, "StmtInlineHtml": true}
+			// (a shebang line followed by inline HTML is the other recorded symptom: the HTML gets an open tag and becomes code)
+			if strings.Contains(mixed, "leaves PHP mode") && !bytes.HasPrefix(cs.Src, []byte("#!")) && astx.StructFPSkip(r2.Root, skip) != astx.StructFPSkip(res.Root, skip) {
+				blame = "a program that leaves PHP mode differs in more than empty statements and inline HTML: " + firstKindDiff(ref.Root, r2.Root)
+			}
 		}
 		c.Report("formatted text parses to a different structure ("+fam+"): "+blame, mkWhat("%q => %q", cs.Src, out), cs)
 		return
